@@ -597,5 +597,12 @@ func driveC22(o hx.RunOpts) error {
 		}
 		s.Rep.Notes = append(s.Rep.Notes, "thorough: every torn prefix length 0..blockSize exercised for 4 pairs")
 	}
+	if err := driveMulti(ctx, s, p, o); err != nil {
+		return err
+	}
+	s.Rep.Notes = append(s.Rep.Notes, "multi-writer cases: 2-3 registry calls (UpdateNoLocks/Add/Remove, optionally a Get) on the same block (different or same slot), each its own registry object sharing one lock cache; "+
+		"parked before and after every DualLock/Unlock of the block-region key and every DirectIO block read/write (the main block write in two pieces at a generated cut), interleaved by directed "+
+		"(actor 0 parked at each point while actor 1 runs a prefix or a whole update and dies or not) and random schedules with process deaths (never resumed; also inside the backup write by truncating it) and lock expiry; "+
+		"then sequential readers of every touched id, the raw block, and a later writer. Oracle: one block version consistent with the updates acknowledged (lock released) in order, dead writers' updates optional; later writer gets through.")
 	return s.Finish()
 }
